@@ -135,6 +135,20 @@ def d2_error_codes(ctx):
                 ctx.chk.ob("D2", "-32601 only for a method that is none of the implemented ones", ok, "PC = %s" % pa.show(pc, 2)[:200], key="D2:method-not-found-site", loc=loc)
 
 
+def d3a_envelope_accepts_any_params(ctx):
+    """A request whose `params` (or `id`) has an unexpected JSON shape must still be answered by the method layer (-32602, id echoed):
+    the envelope type must not reject it, i.e. params deserialises from any JSON value and id from any value or absence."""
+    a = ctx.w.adts.get(C + "Request")
+    if not a:
+        ctx.chk.missing("D3", C + "Request", "request envelope type not found")
+        return
+    tys = {f["name"]: f["ty"] for f in a["variants"][0]["fields"]}
+    ctx.chk.ob("D3", "the request envelope takes `params` as an arbitrary JSON value (shape errors are the method layer's, with the id)", tys.get("params") == "serde_json::Value",
+               "params: %s" % tys.get("params"), key="D3:envelope-params-any-json")
+    ctx.chk.ob("D3", "the request envelope takes `id` as an optional arbitrary JSON value", tys.get("id") == "std::option::Option<serde_json::Value>", "id: %s" % tys.get("id"),
+               key="D3:envelope-id-any-json")
+
+
 def d3_one_response_iff_id(ctx):
     f = ctx.fn(INNER, "D3")
     if not f:
@@ -409,7 +423,7 @@ def d6_entry_points_agree(ctx):
     ctx.WHO_CALLS("D6", INNER, {C + "dispatch"}, floor=1)
 
 
-RULES = [d1_total, d2_error_codes, d3_one_response_iff_id, d4_clamp_and_echo, d5_takes_effect, d6_entry_points_agree]
+RULES = [d1_total, d3a_envelope_accepts_any_params, d2_error_codes, d3_one_response_iff_id, d4_clamp_and_echo, d5_takes_effect, d6_entry_points_agree]
 
 
 def run(ctx):
